@@ -33,7 +33,7 @@ def REQUIRED(tier):
 
 def _required(tier):
     return ["files_cleaned", "hook:apply_mask", "hook:apply_method", "hook:apply_funcn", "mask_union_checks", "vectors:mad", "vectors:iqrm", "vector:all_equal", "vector:planted_outlier",
-            "file_samples_compared", "regime:multi_block", "roundtrip_checks", "freq:empty_list", "freq:outside_band", "freq:overlapping", "freq:limit_on_centre", "algebra_histories", "regime:subrange_cleaned", "regime:negative_float_samples", "regime:float_mask_value_outside_0_255", "custom_function_input_checks", "regime:cleaning_after_a_refused_call", "regime:integer_valued_custom_mask", "band:ascending", "second_cleaning_on_same_reader"]
+            "file_samples_compared", "regime:multi_block", "roundtrip_checks", "freq:empty_list", "freq:outside_band", "freq:overlapping", "freq:limit_on_centre", "algebra_histories", "regime:subrange_cleaned", "regime:negative_float_samples", "regime:float_mask_value_outside_0_255", "custom_function_input_checks", "regime:cleaning_after_a_refused_call", "regime:integer_valued_custom_mask", "band:ascending", "second_cleaning_on_same_reader", "roundtrip:saved_over_an_existing_mask_file"]
 
 
 def cases(tier, seed):
@@ -507,5 +507,20 @@ def _roundtrip(case, ctx):
     for k in ("azimuth", "zenith"):
         if abs(getattr(back.header, k).deg - getattr(hdr, k).deg) > 1e-9:
             ctx.violation(f"roundtrip-header:{k}", f"{k}: {getattr(hdr, k).deg} -> {getattr(back.header, k).deg}", one)
+            return
+    # ---- the mask is refined and saved again under the same name: the file describes the mask as it is now
+    ctx.evaluated(); ctx.count("roundtrip_checks"); ctx.count("roundtrip:saved_over_an_existing_mask_file")
+    try:
+        m.apply_mask([(hdr.fch1 + (nch - 1.5) * hdr.foff, hdr.fch1 + (nch - 3.5) * hdr.foff) if hdr.foff < 0 else (hdr.fch1 + (nch - 3.5) * hdr.foff, hdr.fch1 + (nch - 1.5) * hdr.foff)])
+        m.apply_funcn(lambda cm: np.roll(cm, -1))
+        m.to_file(path)
+        back2 = RFIMask.from_file(path)
+    except Exception as exc:  # noqa: BLE001
+        ctx.violation(f"roundtrip-raised:second-save:{type(exc).__name__}@{exc_site(exc)}", fmt_exc(exc), one)
+        return
+    for k in list(arrs) + ["chan_mask", "user_mask", "stats_mask", "custom_mask"]:
+        a, b = np.asarray(getattr(m, k)), np.asarray(getattr(back2, k))
+        if a.shape != b.shape or not np.array_equal(a, b):
+            ctx.violation(f"roundtrip-array:{k}:saved-over-existing-file", f"{k} read back from a mask file that was saved a second time under the same name is the earlier version", one)
             return
     ctx.nontrivial_case(one)
